@@ -17,9 +17,30 @@ def S(e) -> str:
     return strip_v(e).replace(" ", "")
 
 
+_REF_FUNCS = None
+
+
+def reference_functions() -> set:
+    """Qualified names of every function of the reference tree (spec/local_names.json).  A function that is NOT in this set was introduced by an edit -
+    typically a helper extracted from the code the rule reads - and is inlined into its callers so that the rule sees the logic where it used to be."""
+    global _REF_FUNCS
+    if _REF_FUNCS is None:
+        import json
+        import os
+
+        p = os.path.join(os.path.dirname(os.path.dirname(os.path.abspath(__file__))), "spec", "local_names.json")
+        try:
+            with open(p, encoding="utf-8") as fh:
+                _REF_FUNCS = set(json.load(fh).get("all_functions", []))
+        except OSError:
+            _REF_FUNCS = set()
+    return _REF_FUNCS
+
+
 def enum_paths(ctx: Ctx, fi: FuncInfo, inline: Iterable[str] = (), **kw) -> List[Path]:
     names = set(inline)
-    en = Enumerator(ctx.index, ctx.resolver, Options(inline=lambda f: f.name in names or f.qualname in names, **kw))
+    ref = reference_functions()
+    en = Enumerator(ctx.index, ctx.resolver, Options(inline=lambda f: f.name in names or f.qualname in names or (bool(ref) and f.qualname not in ref and not f.qualname.endswith(".__init__")), **kw))
     ps = en.function(fi)
     ctx.paths_enumerated += en.count
     return ps
@@ -67,6 +88,23 @@ def label_source(e: ast.expr, res: str) -> str:
         if test in (f"{res}.ground_truth_objectisNone", f"not{res}.ground_truth_object") and b == est and o == gt:
             return "gt-else-est"
     return "other"
+
+
+def label_ok(ctx, p: Path, e: ast.expr, res: str) -> Tuple[Optional[bool], str]:
+    """Path-aware form of label_source: (True / False / None = shape not recognised, description).  The label must be the ground truth's whenever a ground
+    truth exists on this path and the estimate's only when none does - whether that is written as one conditional expression or as branches."""
+    src = label_source(e, res)
+    if src == "gt-else-est":
+        return True, src
+    gt_none = fact_where(p, lambda k: S(k) == f"none:{res}.ground_truth_object")
+    if gt_none is None:
+        tr = fact_where(p, lambda k: S(k) == f"truthy:{res}.ground_truth_object")
+        gt_none = None if tr is None else (not tr)
+    if src == "gt":
+        return (gt_none is False), src + ("" if gt_none is False else ":gt-not-known-present")
+    if src == "est":
+        return (True if gt_none is True else False), src + (":no-gt" if gt_none else ":although-a-gt-may-exist")
+    return None, src
 
 
 def find_calls(p: Path, name: str, deep: bool = False) -> List[Effect]:
